@@ -724,6 +724,18 @@ func (env *Env) call(x *ECall) SVal {
 		}
 		k := env.value(env.eval(x.Args[0]))
 		return SVal{T: rankTerm(env.a.top.fc, k.T), Typ: tInt, Sort: "Int"}
+	case "key", "rawval":
+		// raw map accesses (no nil / presence guards): pure select terms, meant for triggers
+		m := env.value(env.eval(x.Args[0]))
+		k := env.value(env.eval(x.Args[1]))
+		mt, ok := types.Unalias(m.Typ).Underlying().(*types.Map)
+		if !ok {
+			fail("%s of non-map", x.Fn)
+		}
+		if x.Fn == "key" {
+			return b(sel(env.a.mapDom(env.cur, mt, m.T), k.T))
+		}
+		return env.sv(sel(env.a.mapVal(env.cur, mt, m.T), k.T), mt.Elem())
 	case "dom", "vals":
 		m := env.value(env.eval(x.Args[0]))
 		mt, ok := types.Unalias(m.Typ).Underlying().(*types.Map)
